@@ -435,7 +435,14 @@ func checkPhaseStores(c *engine.Ctx) {
 			n++
 			key := fmt.Sprintf("%s>phase:=%s#%d", p.FuncName(f), strings.ReplaceAll(target, " ", "-"), n)
 			c.AllPaths(key, engine.PathCheck{Fn: f, Sink: engine.Is(in), KeepLoopFacts: true, Pred: func(ps *engine.PathState) string {
-				is := func(s string) bool { v, k := phaseIs(ps, s); return k && v }
+				is := func(s string) bool {
+					v, k := phaseIs(ps, s)
+					if !k {
+						// the store moved into a helper: the phase test stayed in (every) caller
+						v, k = engine.CallerAgree(p, f, true, func(cs *engine.PathState) (bool, bool) { return phaseIs(cs, s) })
+					}
+					return k && v
+				}
 				switch target {
 				case "closed", "new":
 					return ""
@@ -473,7 +480,7 @@ func checkPhaseStores(c *engine.Ctx) {
 			}}, "transition into '%s' only from its legal predecessors", target)
 		})
 	}
-	c.Floor(n, 7)
+	c.Floor(n, 5)
 }
 
 func checkHealthMonitor(c *engine.Ctx) {
